@@ -96,7 +96,7 @@ def case_strategy(kinds=("inject", "inject", "inject", "natural", "hook")):
         spec = dict(base, kind=kind)
         n = len(base["methods"])
         if kind == "inject":
-            spec["scenario"] = draw(st.sampled_from(["first", "rebuild", "miss"]))
+            spec["scenario"] = draw(st.sampled_from(["first", "rebuild", "miss", "replace"]))
             spec["frac"] = draw(st.floats(0, 1))  # fault point as a fraction of the operation's executed lines
             spec["entry"] = draw(st.sampled_from(["dispatch", "ovld"]))
         elif kind == "natural":
@@ -206,6 +206,15 @@ def scenario_op(spec, prog, env):
 
     sc = spec["scenario"]
     ids = [m["id"] for m in spec["methods"]]
+    if sc == "replace":
+        dup = spec["_dup"]
+        ids = [i for i in ids if i != dup]
+
+        def setup():
+            for mid in ids:
+                prog.register(mid)
+            capture(call, first)
+        return setup, lambda: prog.register(dup)
     if sc == "first":
         def setup():
             for mid in ids:
@@ -226,9 +235,23 @@ def scenario_op(spec, prog, env):
     return setup, lambda: call(later)
 
 
+def augment(spec):
+    """scenario 'replace': the operation registers a NEW function with the signature of an existing method (the one
+    whose call_next chain the probes walk) - a replacement, which the library performs as several writes"""
+    if spec.get("scenario") != "replace" or spec.get("_augmented"):
+        return spec
+    methods = spec["methods"]
+    src = next((m for m in methods if any(s_["fn"] == "call_next" and s_["npos"] == len(m["pos"]) for s_ in m["sites"])
+                and m.get("prio", 0) < 5), methods[-1])
+    nid = max(m["id"] for m in methods) + 1
+    dup = dict(src, id=nid, pos=[dict(p, name=(f"q{nid}_{j}" if p.get("posonly") else p["name"])) for j, p in enumerate(src["pos"])])
+    return dict(spec, methods=methods + [dup], _augmented=True, _dup=nid)
+
+
 def run_inject(spec, k=None):
     res = R.CaseResult()
     env = H.build(HIER)
+    spec = augment(spec)
     pspec = {"hier": HIER, "methods": spec["methods"], "host": "func"}
     # pass 1: count the executed lines of the operation
     prog = Program(pspec, env=env, build=False)
@@ -575,7 +598,7 @@ class Check:
                    "shard": [j, 4]} for i in range(2) for j in range(4)]
             # ... and the change of the method set itself sits at the very start of a re-registration
             t += [{"kind": "enum", "seed": seed * 1000 + 850 + i, "sets": 2, "stride": 1, "offset": 0, "head": 160,
-                   "scenarios": ["rebuild"], "shard": [j, 2]} for i in range(3) for j in range(2)]
+                   "scenarios": ["rebuild", "replace"], "shard": [j, 3]} for i in range(2) for j in range(3)]
             return t
         t = [{"kind": "rand", "seed": seed * 1000 + i, "n": 3000} for i in range(8)]
         t += [{"kind": "enum", "seed": seed * 1000 + 700 + i, "sets": 1, "stride": 1, "offset": 0} for i in range(8)]
@@ -602,7 +625,7 @@ class Check:
         collect()
         specs = []
         for b in bases[: task["sets"]]:
-            for sc in task.get("scenarios") or ("first", "rebuild", "miss"):
+            for sc in task.get("scenarios") or ("first", "rebuild", "miss", "replace"):
                 for entry in ("dispatch", "ovld"):
                     probe = dict(b, kind="inject", scenario=sc, entry=entry, frac=0.0)
                     total = count_lines(probe)
@@ -626,6 +649,7 @@ class Check:
 
 def count_lines(spec):
     env = H.build(HIER)
+    spec = augment(spec)
     prog = Program({"hier": HIER, "methods": spec["methods"], "host": "func"}, env=env, build=False)
     try:
         setup, op = scenario_op(spec, prog, env)
